@@ -43,7 +43,7 @@ def build():
     U.stub('ghost_readEntry', 'void ghost_readEntry(int entNo, struct PGEntry* ent)')
     U.raw('int ghost_numEntries;   /* numEntries = fileLen / 16 */\n')
     U.passthrough('ghost_numEntries')
-    U.fragment(BK_C, 'Book_getBookEntries_search', r'int lo = -1;\s*int hi = numEntries;', r'for \(int entNo = hi; entNo < numEntries; entNo\+\+\)',
+    U.fragment(BK_C, 'Book_getBookEntries_search', r'int lo = ', r'for \(int entNo = ',
                params=[('int', 'numEntries', False), ('U64', 'key', False), ('PolyglotBook::PGEntry', 'ent', True), ('U64', 'entHash', True), ('U16', 'entMove', True), ('U16', 'entWeight', True)],
                ret='int', rules=[(r'readEntry\(mid, ent\);', 'ghost_readEntry(mid, &ent);', 1)], epilogue='\n    return hi;\n')
     # ---- move selection of Book::getBookMove (fragment) ----
@@ -73,6 +73,9 @@ def build():
 
 
 SPEC = r'''
+/* the polyglot file is a fixed sequence of entries: ghost_fg is an arbitrary index and ghost_fh the key stored there (stands for "for all indices") */
+int ghost_fg; U64 ghost_fh;
+
 int __CPROVER_uninterpreted_weight(int, int);   /* Book::getWeight is a function of its arguments (no state is read) */
 _Bool ghost_assume_det;   /* set by the selection harness only: determinism of getWeight is an assumption there */
 #define MOVES_SAME(a, b) ((a)->buf[0].from_ == (b)->buf[0].from_ && (a)->buf[0].to_ == (b)->buf[0].to_ && (a)->buf[0].promoteTo_ == (b)->buf[0].promoteTo_ && (a)->buf[1].from_ == (b)->buf[1].from_ && (a)->buf[1].to_ == (b)->buf[1].to_ && (a)->buf[1].promoteTo_ == (b)->buf[1].promoteTo_ && (a)->buf[2].from_ == (b)->buf[2].from_ && (a)->buf[2].to_ == (b)->buf[2].to_ && (a)->buf[2].promoteTo_ == (b)->buf[2].promoteTo_ && (a)->buf[3].from_ == (b)->buf[3].from_ && (a)->buf[3].to_ == (b)->buf[3].to_ && (a)->buf[3].promoteTo_ == (b)->buf[3].promoteTo_ && (a)->buf[4].from_ == (b)->buf[4].from_ && (a)->buf[4].to_ == (b)->buf[4].to_ && (a)->buf[4].promoteTo_ == (b)->buf[4].promoteTo_ && (a)->buf[5].from_ == (b)->buf[5].from_ && (a)->buf[5].to_ == (b)->buf[5].to_ && (a)->buf[5].promoteTo_ == (b)->buf[5].promoteTo_ && (a)->buf[6].from_ == (b)->buf[6].from_ && (a)->buf[6].to_ == (b)->buf[6].to_ && (a)->buf[6].promoteTo_ == (b)->buf[6].promoteTo_ && (a)->buf[7].from_ == (b)->buf[7].from_ && (a)->buf[7].to_ == (b)->buf[7].to_ && (a)->buf[7].promoteTo_ == (b)->buf[7].promoteTo_ && (a)->buf[8].from_ == (b)->buf[8].from_ && (a)->buf[8].to_ == (b)->buf[8].to_ && (a)->buf[8].promoteTo_ == (b)->buf[8].promoteTo_ && (a)->buf[9].from_ == (b)->buf[9].from_ && (a)->buf[9].to_ == (b)->buf[9].to_ && (a)->buf[9].promoteTo_ == (b)->buf[9].promoteTo_ && (a)->buf[10].from_ == (b)->buf[10].from_ && (a)->buf[10].to_ == (b)->buf[10].to_ && (a)->buf[10].promoteTo_ == (b)->buf[10].promoteTo_ && (a)->buf[11].from_ == (b)->buf[11].from_ && (a)->buf[11].to_ == (b)->buf[11].to_ && (a)->buf[11].promoteTo_ == (b)->buf[11].promoteTo_ && (a)->buf[12].from_ == (b)->buf[12].from_ && (a)->buf[12].to_ == (b)->buf[12].to_ && (a)->buf[12].promoteTo_ == (b)->buf[12].promoteTo_ && (a)->buf[13].from_ == (b)->buf[13].from_ && (a)->buf[13].to_ == (b)->buf[13].to_ && (a)->buf[13].promoteTo_ == (b)->buf[13].promoteTo_ && (a)->buf[14].from_ == (b)->buf[14].from_ && (a)->buf[14].to_ == (b)->buf[14].to_ && (a)->buf[14].promoteTo_ == (b)->buf[14].promoteTo_ && (a)->buf[15].from_ == (b)->buf[15].from_ && (a)->buf[15].to_ == (b)->buf[15].to_ && (a)->buf[15].promoteTo_ == (b)->buf[15].promoteTo_)
@@ -107,15 +110,20 @@ CONTRACTS = {
     },
     'ghost_readEntry': {   # assumed: stands for the lambda reading 16 bytes at offset entNo*16 (zero entry on read failure)
         'requires': ['0 <= entNo && entNo < ghost_numEntries', '__CPROVER_is_fresh(ent, sizeof(*ent))'],
-        'assigns': ['__CPROVER_object_whole(ent)'], 'ensures': ['1']},
+        'assigns': ['__CPROVER_object_whole(ent)'],
+        # the file is a fixed (arbitrary) sequence of entries: reading index ghost_fg yields the key ghost_fh
+        'ensures': ['entNo == ghost_fg ==> ((U64)ent->data[0] << 56 | (U64)ent->data[1] << 48 | (U64)ent->data[2] << 40 | (U64)ent->data[3] << 32 | (U64)ent->data[4] << 24 | (U64)ent->data[5] << 16 | (U64)ent->data[6] << 8 | (U64)ent->data[7]) == ghost_fh']},
     'Book_getBookEntries_search': {
         'requires': ['0 <= numEntries && numEntries <= (1 << 27)', 'numEntries == ghost_numEntries', '__CPROVER_is_fresh(ent, sizeof(*ent))', '__CPROVER_is_fresh(entHash, 8)',
                      '__CPROVER_is_fresh(entMove, 2)', '__CPROVER_is_fresh(entWeight, 2)'],
         'assigns': ['__CPROVER_object_whole(ent)', '*entHash', '*entMove', '*entWeight'],
         # whatever the file contains (unsorted, truncated, corrupted): every entry index read is inside the file and the search ends
-        'ensures': ['0 <= __CPROVER_return_value && __CPROVER_return_value <= numEntries'],
+        'ensures': ['0 <= __CPROVER_return_value && __CPROVER_return_value <= numEntries',
+                    # ... and the index returned is a boundary: the entry before it has a smaller key, the entry at it a key that is not smaller
+                    # (in a sorted file this is the first entry whose key is >= the wanted key, the one the reading loop must start from)
+                    '((__CPROVER_return_value - 1 == ghost_fg && ghost_fg >= 0) ==> ghost_fh < key) && ((__CPROVER_return_value == ghost_fg && __CPROVER_return_value < numEntries) ==> ghost_fh >= key)'],
         'loops': {0: {'assigns': 'lo, hi, __CPROVER_object_whole(ent), *entHash, *entMove, *entWeight',
-                      'invariant': ['-1 <= lo && lo < hi && hi <= numEntries'], 'decreases': 'hi - lo'}},
+                      'invariant': ['-1 <= lo && lo < hi && hi <= numEntries', '((lo == ghost_fg && lo >= 0) ==> ghost_fh < key) && ((hi == ghost_fg && hi < numEntries) ==> ghost_fh >= key)'], 'decreases': 'hi - lo'}},
     },
     'ghost_legal_moves': {  # assumed: MoveGen::pseudoLegalMoves + removeIllegal (C01): fills the list with the legal moves
         'requires': ['__CPROVER_is_fresh(legalMoves, sizeof(*legalMoves))'],
@@ -150,7 +158,7 @@ HARNESS = r'''
 #define CANARY_POINT
 #endif
 int nondet_int(void);
-static void hv(void) { __CPROVER_havoc_object(&ghost_legal); ghost_numEntries = nondet_int(); ghost_pick = nondet_int(); ghost_j = nondet_int(); ghost_kj = nondet_int(); ghost_rnd = nondet_int(); }
+static void hv(void) { __CPROVER_havoc_object(&ghost_legal); ghost_numEntries = nondet_int(); ghost_pick = nondet_int(); ghost_j = nondet_int(); ghost_kj = nondet_int(); ghost_rnd = nondet_int(); ghost_fg = nondet_int(); ghost_fh = ((U64)(unsigned)nondet_int() << 32) | (unsigned)nondet_int(); }
 void h_getMove(void) { struct Position* p; U16 mv; hv(); PolyglotBook_getMove(p, mv); CANARY_POINT; }
 void h_serialize(void) { U64 h; U16 m, w; struct PGEntry* e; hv(); PolyglotBook_serialize(h, m, w, e); CANARY_POINT; }
 void h_deSerialize(void) { struct PGEntry* e; U64* h; U16 *m, *w; hv(); PolyglotBook_deSerialize(e, h, m, w); CANARY_POINT; }
